@@ -19,32 +19,36 @@ theorem stepOp_objs_length_le (h : Heap γ) (op : Op γ) : h.objs.length ≤ (st
   | nil => exact Nat.le_refl _
   | cons m r ih => exact Nat.le_trans (step_objs_length_le h m) (ih (step h m))
 
-/-- an operation that is not an in-place call on `t` does not target `t` with any of its steps -/
+/-- an operation that is not an in-place call on `t` does not target `t` with any of its steps,
+except for re-layouts (read accessors caching a format conversion), which change no content -/
 theorem op_micro_target (n : Nat) (op : Op γ) (t : Nat) (hlt : t < n)
-    (hne : ∀ r bs, op = .inplace r bs → r ≠ t) : ∀ m ∈ op.micro n, m.target ≠ some t := by
+    (hne : ∀ r bs, op = .inplace r bs → r ≠ t) : ∀ m ∈ op.micro n, m.target ≠ some t ∨ m.quiet = true := by
   intro m hm
   cases op with
   | extIds l => simp only [Op.micro, List.mem_singleton] at hm; subst hm; simp [Micro.target]
   | inplace r bs =>
+    left
     rw [bodiesMicro_target r bs m hm]
     intro e; exact hne r bs rfl (Option.some.inj e)
-  | new srcs F os ss post =>
-    simp only [Op.micro, List.mem_cons] at hm
-    rcases hm with rfl | hm
-    · simp [Micro.target]
-    · rw [bodiesMicro_target n post m hm]
+  | new pre srcs F os ss post =>
+    simp only [Op.micro, List.mem_append, List.mem_map, List.mem_cons] at hm
+    rcases hm with ⟨p, _, rfl⟩ | rfl | hm
+    · right; rfl
+    · left; simp [Micro.target]
+    · left
+      rw [bodiesMicro_target n post m hm]
       intro e; have := Option.some.inj e; omega
 
 /-- **frame** for one API call: every live table other than an in-place receiver — in particular
 the receiver and every argument of a non-in-place call — is observably unchanged. -/
 theorem stepOp_frame {h : Heap γ} (s : Sep h) (op : Op γ) (t : Nat) (hlt : t < h.objs.length)
     (hne : ∀ r bs, op = .inplace r bs → r ≠ t) : (stepOp h op).abs t = h.abs t :=
-  run_frame s _ t hlt (op_micro_target _ op t hlt hne)
+  run_frame_quiet s _ t hlt (op_micro_target _ op t hlt hne)
 
 /-- "Every operation invoked with inplace=False, and every operation documented to return a new
 table, leaves the receiver and all argument tables observably unchanged". -/
-theorem noninplace_inputs_unchanged {h : Heap γ} (s : Sep h) (srcs F os ss) (post : List (Body γ)) (t : Nat)
-    (hlt : t < h.objs.length) : (stepOp h (.new srcs F os ss post)).abs t = h.abs t :=
+theorem noninplace_inputs_unchanged {h : Heap γ} (s : Sep h) (pre srcs F os ss) (post : List (Body γ)) (t : Nat)
+    (hlt : t < h.objs.length) : (stepOp h (.new pre srcs F os ss post)).abs t = h.abs t :=
   stepOp_frame s _ t hlt (fun _ _ e => by cases e)
 
 /-- **frame over histories**: a table is unchanged by any sequence of calls none of which is an
@@ -97,7 +101,7 @@ theorem copy_content {h : Heap γ} (s : Sep h) (r : Nat) (bs : List (Body γ)) (
     (stepOp h (Op.copyThen r bs)).abs h.objs.length =
       some (absRun (bodiesMicro r bs) (h.absObj o).norm) := by
   unfold stepOp Op.copyThen
-  simp only [Op.micro, run, List.foldl_cons, step]
+  simp only [Op.micro, List.map_nil, List.nil_append, run, List.foldl_cons, step]
   have hc := abs_construct h [r] copyF .fresh .fresh
   have hsrc : [r].filterMap h.abs = [h.absObj o] := by simp [Heap.abs, ho]
   rw [hsrc, copyF_single] at hc
@@ -128,7 +132,7 @@ def wC0 : Content Nat :=
 
 /-- build it, then keep only the second sample in place: the receiver now holds the tuple `({},)` -/
 def wHeap : Heap Nat :=
-  runOps Heap.empty [.new [] (fun _ => wC0) .fresh .fresh [], .inplace 0 [.filter .samp id ["s2"] [false, true]]]
+  runOps Heap.empty [.new [] [] (fun _ => wC0) .fresh .fresh [], .inplace 0 [.filter .samp id ["s2"] [false, true]]]
 
 /-- the guard of `inplace_equiv_partial` is needed: on a receiver whose sample metadata is the
 tuple `({},)`, `transform(inplace=True)` keeps the tuple while `transform(inplace=False)` returns a
@@ -170,7 +174,7 @@ theorem holds_of_new (c : CallObs γ) (hi : c.inplace = false)
   simp only [holds, holdsV, hi, allV, List.foldl, chk, h1, h2, h3, h4, h5, h6, Verdict.and]
   rfl
 
-theorem take_snaps_eq {h h' : Heap γ} (hle : h.objs.length ≤ h'.objs.length)
+theorem take_snaps_eq {h h' : Heap γ} (_hle : h.objs.length ≤ h'.objs.length)
     (hfr : ∀ t, t < h.objs.length → h'.abs t = h.abs t) : (snaps h').take h.objs.length = snaps h := by
   apply List.ext_getElem?
   intro i
@@ -248,7 +252,7 @@ theorem obs_holds_new {h : Heap γ} (s : Sep h) (op : Op γ) (poke : List (Body 
     · simp [obsOp, snaps_length]
     · simp only [obsOp, beq_iff_eq]; exact e2
     · simp only [obsOp, beq_iff_eq]; exact i2
-  | new srcs F os ss post =>
+  | new pre srcs F os ss post =>
     apply holds_of_new
     · rfl
     · simp only [obsOp, beq_iff_eq]; exact e1
@@ -262,7 +266,7 @@ theorem obsOp_sep {h : Heap γ} (s : Sep h) (op : Op γ) (poke : List (Body γ))
   cases op with
   | inplace r bs => exact stepOp_sep s _
   | extIds l => exact stepOp_sep (stepOp_sep s _) _
-  | new srcs F os ss post => exact stepOp_sep (stepOp_sep s _) _
+  | new pre srcs F os ss post => exact stepOp_sep (stepOp_sep s _) _
 
 /-- **model_holds** (partial: guard `okRun` = at every in-place call the receiver exists and has no
 all-empty metadata tuple; the guard is exact, see `inplace_equiv_witness`): the declarative
@@ -288,7 +292,7 @@ theorem model_holds_partial {h : Heap γ} (s : Sep h) (calls : List (Op γ × Li
         simp only [ha] at hk
         exact obs_holds_inplace s r bs poke o ho (e ▸ hk)
     | extIds l => exact obs_holds_new s _ poke (fun _ _ e => by cases e)
-    | new srcs F os ss post => exact obs_holds_new s _ poke (fun _ _ e => by cases e)
+    | new pre srcs F os ss post => exact obs_holds_new s _ poke (fun _ _ e => by cases e)
 
 /-- every history that starts from nothing (all prior histories, every layout they lead to) -/
 theorem model_holds_from_empty (pre : List (Op γ)) (calls : List (Op γ × List (Body γ)))
